@@ -91,10 +91,20 @@ def run(ck):
     binp = ck.go_build("c02")
     if not binp:
         return
+    import glob, os
+    from core import ROOT
+    recs = []
+    for cp in sorted(glob.glob(os.path.join(ROOT, "corpus", "C02", "*.jsonl"))):   # minimised earlier failures first
+        r = ck.run_harness(binp, ["-in", cp], out_name="corpus.jsonl")
+        if r is None:
+            return
+        recs += r
+    ck.extra["corpus_histories"] = len(recs)
     args = ["-n", "500", "-long", "120"] if ck.tier == "quick" else ["-n", "20000", "-long", "4000"]
-    recs = ck.run_harness(binp, args)
-    if recs is None:
+    r = ck.run_harness(binp, args)
+    if r is None:
         return
+    recs += r
     evaluate(ck, recs)
     for r in recs[:2]:
         ck.sample({k: r[k] for k in ("batch", "gh", "init", "blocks")})
